@@ -73,6 +73,11 @@ func genHs(seed uint64, tier string) KScenario {
 		for i := 0; i < n; i++ {
 			sc.Inject = append(sc.Inject, WInject{AtMS: int64(r.Pick(0, 1, 5, 20, 60, 150, 400)), To: r.N(2), Kind: hsInjectKinds[r.N(len(hsInjectKinds))], A: int64(r.N(1 << 16)), B: int64(r.N(8))})
 		}
+		if sc.VN && r.P(0.6) && sc.Net.LatencyUS >= 3000 {
+			// a forged Version Negotiation packet in the window between the genuine one (processed after one round trip)
+			// and the server's answer to the second attempt (after two round trips)
+			sc.Inject = append(sc.Inject, WInject{AtMS: sc.Net.LatencyUS * 3 / 1000, To: 1, Kind: "vn-other", A: int64(r.N(1 << 16))})
+		}
 	default:
 		sc.Mode = "token"
 		sc.Token = r.Pick2("valid", "rebound", "expired", "truncated", "flipped", "otherkey")
@@ -90,6 +95,11 @@ func genHs(seed uint64, tier string) KScenario {
 	}
 	if r.P(0.2) {
 		sc.Net.Burst = r.Pick(2, 4, 16)
+	}
+	if r.P(0.15) {
+		// damage to the long header of one of the first client datagrams (version, connection ID lengths and bytes, token
+		// length): the server may create its connection from a header it cannot authenticate
+		sc.Faults = append(sc.Faults, WFault{Dir: 0, Ord: r.N(2), Kind: "corrupt", A: int64(r.N(40)), B: int64(1 << r.N(8))})
 	}
 	return sc
 }
@@ -284,7 +294,9 @@ func runHs(t *testing.T, ksc KScenario, res *KResult) {
 		addr := w.clientAddrOf(rec)
 		ampRcvd[addr] += int64(len(data))
 		for i, p := range rec.Pkts {
-			if rec.PktState[i] != 0 || !p.Opened {
+			// (state 1: coalesced behind a packet whose long header was damaged - if the damage spared the length field and
+			// the destination connection ID, e.g. it hit the source connection ID, this packet is intact and is processed)
+			if rec.PktState[i] == 2 || !p.Opened {
 				continue
 			}
 			// validation: a Handshake packet from the client, or an Initial carrying a token that is valid by construction
@@ -503,7 +515,7 @@ func runHs(t *testing.T, ksc KScenario, res *KResult) {
 		for _, p := range w.Tap.All {
 			if p.SentNS >= t0 && (p.Type != Tap1RTT || len(p.Frames) < 3) {
 				rec := w.Log[p.Dir][p.Ord]
-				res.Logf("  %d %s {%s-> %v}", p.SentNS/1000, p.String(), rec.Fate, rec.Delivered)
+				res.Logf("  %d %s dgram=%d {%s-> %v}", p.SentNS/1000, p.String(), rec.Size, rec.Fate, rec.Delivered)
 			}
 		}
 		return r
@@ -804,6 +816,15 @@ func hsInjectionsWereLate(w *World, sc *HsScenario, d *hsDialResult) bool {
 		switch in.Kind {
 		case "vn-other", "vn-same":
 			acked := false
+			// a genuine Version Negotiation packet the client has been delivered is a packet it has processed: any later
+			// Version Negotiation packet must be discarded (RFC 9000, section 6.2)
+			for _, rec := range w.Log[1] {
+				if len(rec.Pkts) == 1 && rec.Pkts[0].Type == TapVN && !rec.Damaged && len(rec.Delivered) > 0 && rec.Delivered[0] < at {
+					acked = true
+					res0 := w.Res
+					res0.Probe("forged-vn-after-genuine-vn")
+				}
+			}
 			for _, rec := range w.Log[0] {
 				if rec.SentNS >= at {
 					break
